@@ -23,7 +23,7 @@ def gen_plan(rng, tier: str, idx: int) -> dict:
     nkeys = rng.randint(2, 3)
     names = rng.sample(NAMES, nkeys)
     scales = rng.sample([1.0, 100.0, 1e4, 0.01, 10.0], nkeys)
-    keys = [{"name": n, "shape": rng.choice([[], [], [2], [3], [2, 2]]), "scale": s} for n, s in zip(names, scales)]
+    keys = [{"name": n, "shape": rng.choice([[], [], [2], [3], [2, 2], [2, 3]]), "scale": s} for n, s in zip(names, scales)]
     order = list(range(nkeys))
     rng.shuffle(order)
     perm2 = list(range(nkeys))
@@ -89,7 +89,13 @@ def shrink_candidates(plan):
 
 def run(plan, order):
     keys = plan["keys"]
-    scale = {k["name"]: np.float32(k["scale"]) for k in keys}
+    def entry_scales(k):
+        # every entry of a vector / matrix parameter has its own scale, so that a transposed or
+        # permuted flattening is visible in the tuned variances
+        n = int(np.prod(k["shape"])) if k["shape"] else 1
+        return (np.float32(k["scale"]) * (1.0 + 0.7 * np.arange(n, dtype=np.float32))).reshape(tuple(k["shape"]))
+
+    scale = {k["name"]: entry_scales(k) for k in keys}
     if plan["other"]:
         scale[plan["other"]["name"]] = np.float32(plan["other"]["scale"])
 
@@ -114,7 +120,7 @@ def run(plan, order):
     rs = np.random.RandomState(plan["seed"] % 2**31)
     state = {}
     for k in keys + ([plan["other"]] if plan["other"] else []):
-        state[k["name"]] = jnp.asarray((rs.normal(size=[C] + k["shape"]) * k["scale"]).astype(np.float32))
+        state[k["name"]] = jnp.asarray((rs.normal(size=[C] + k["shape"]) * np.asarray(scale[k["name"]])).astype(np.float32))
     try:
         eng = gs.Engine(seeds=jax.random.split(jax.random.PRNGKey(plan["seed"]), C), model_states=state,
                         kernel_sequence=KernelSequence(kernels), epoch_configs=[EpochConfig(EpochType(e[0]), e[1], e[2], None) for e in plan["epochs"]],
